@@ -115,7 +115,10 @@ IdsOf(parts) == { parts[k].i : k \in { j \in 1..Len(parts) : parts[j].t = "id" }
 -----------------------------------------------------------------------------
 (* Actions = the public API *)
 
-Issue(h, s) == issued' = issued \cup {[h |-> h, s |-> s]}
+\* perm: the handle was obtained through a route that makes the string permanent (static allocation,
+\* module-reference parts) — what the property calls "permanent", whatever the implementation's own flag says
+Issue(h, s) == issued' = issued \cup {[h |-> h, s |-> s, perm |-> FALSE]}
+IssuePerm(h, s) == issued' = issued \cup {[h |-> h, s |-> s, perm |-> TRUE]}
 
 \* The optimizer protocol: while a TempPStrCounter is outstanding nothing else grows the table.
 Growable == ~counter.active
@@ -131,7 +134,7 @@ AllocStatic(s) ==
   /\ Growable
   /\ LET r == StaticF(table, internTemp, internPerm, s) IN
        /\ table' = r[1] /\ internTemp' = r[2] /\ internPerm' = r[3]
-       /\ Issue(r[4], s)
+       /\ IssuePerm(r[4], s)
        \* a promoted slot is no longer a marked temporary
        /\ markedSince' = IF r[4].t = "id" THEN markedSince \ {r[4].i} ELSE markedSince
   /\ UNCHANGED <<modules, unmarked, sweepIdx, counter, reclaimed, tempNames>>
@@ -161,7 +164,7 @@ AllocModuleRefStr(ss) ==
   /\ LET r == StaticAllF(table, internTemp, internPerm, ss, <<>>)
          parts == r[4] IN
        /\ table' = r[1] /\ internTemp' = r[2] /\ internPerm' = r[3]
-       /\ issued' = issued \cup { [h |-> parts[k], s |-> ss[k]] : k \in 1..Len(ss) }
+       /\ issued' = issued \cup { [h |-> parts[k], s |-> ss[k], perm |-> TRUE] : k \in 1..Len(ss) }
        /\ modules' = IF ModuleIndexOf(parts) # 0 THEN modules ELSE Append(modules, parts)
        /\ markedSince' = markedSince \ IdsOf(parts)
   /\ UNCHANGED <<unmarked, sweepIdx, counter, reclaimed, tempNames>>
@@ -277,10 +280,13 @@ Injective == \A x, y \in issued : (LiveH(x.h) /\ LiveH(y.h)) => ((x.h = y.h) <=>
 InModule(i) == \E m \in 1..Len(modules) : \E k \in 1..Len(modules[m]) : modules[m][k] = Id(i)
 \* no string that is permanent, part of a module reference, or marked since the sweeper
 \* last passed over it is reclaimed by the next step
-Protected(i) == table[i].kind = "perm" \/ table[i].kind = "pad" \/ InModule(i) \/ i \in markedSince
+SpecPermanent(i) == \E x \in issued : x.perm /\ x.h = Id(i)
+Protected(i) == SpecPermanent(i) \/ table[i].kind = "pad" \/ InModule(i) \/ i \in markedSince
 NoLiveReclaimStep == \A i \in 1..Len(table) : Protected(i) => table'[i].kind # "dead"
 NoLiveReclaim == [][NoLiveReclaimStep]_vars
 ModulePartsPermanent == \A i \in 1..Len(table) : InModule(i) => table[i].kind = "perm"
+\* (implementation layer) what the property calls permanent is flagged permanent by the implementation
+PermanentFlagged == \A i \in 1..Len(table) : SpecPermanent(i) => table[i].kind = "perm"
 \* re-allocating a reclaimed string yields a fresh, readable handle:
 \* a handle whose slot is dead is never handed out again (slots are not reused) and
 \* whatever was issued last for a string is live right after the allocation
